@@ -38,6 +38,10 @@ class PoissonJointLL:
     def result(c, target_event_log_rates, target_observations, n_fore):
         return c.ctx.fresh_real('jll')
 
+    def witness(m, p):
+        from pyvc.driver import model_value
+        return {k: model_value(m, v) for k, v in p.items()}
+
 
 # ------------------------------------------------------------------ C07
 @contract
@@ -207,6 +211,17 @@ class _BinaryLL:
         return c.ctx.fresh_real('bll')
 
 
+def _rates_counts_witness(a, b):
+    def w(m, p):
+        from pyvc.driver import model_value
+        return {'rates': model_value(m, p[a]), 'counts': model_value(m, p[b])}
+    return staticmethod(w)
+
+
+_BinaryLL.oracle = 'binary_jll_ndarray'
+_BinaryLL.witness = _rates_counts_witness('forecast', 'catalog')
+
+
 @contract
 class BinaryLL1(_BinaryLL):
     case = '1-d (spatial) arrays, positive rates'
@@ -251,6 +266,10 @@ class _Brier:
         return c.ctx.fresh_real('brier')
 
 
+_Brier.oracle = 'brier_score_ndarray'
+_Brier.witness = _rates_counts_witness('forecast', 'observations')
+
+
 @contract
 class Brier2(_Brier):
     case = '2-d (space-magnitude) arrays'
@@ -269,6 +288,11 @@ class TTestNdarray:
     qualname = 'csep.core.poisson_evaluations._t_test_ndarray'
     case = 'positive target rates, N >= 2'
     oracle = 't_test_ndarray'
+
+    def witness(m, p):
+        from pyvc.driver import model_value
+        return {'rates1': model_value(m, p['target_event_rates1']), 'rates2': model_value(m, p['target_event_rates2']),
+                'n_f1': model_value(m, p['n_f1']), 'n_f2': model_value(m, p['n_f2']), 'alpha': model_value(m, p['alpha'])}
     properties = ('C08',)
 
     def params(c):
